@@ -211,6 +211,26 @@ func (s *Sink) Close() (retErr error) {
 		return ErrIncomplete
 	}
 
+	if s.localWALDir != "" && s.stc != nil {
+		// The full-snapshot requirement may have been raised after the header was
+		// accepted (e.g. a database load applied while this snapshot was being
+		// persisted). Nothing has been consumed yet -- the WAL directory is untouched --
+		// so refuse here, rather than install an incremental snapshot while a full one
+		// is required and then clear that requirement below. This is not a broken WAL
+		// series, so it is an ordinary error, not a fatal one.
+		dueNext, err := s.stc.DueNext()
+		if err != nil {
+			return err
+		}
+		if dueNext == Full {
+			stats.Add(sinkErrors, 1)
+			if err := os.RemoveAll(s.snapTmpDirPath); err != nil {
+				return err
+			}
+			return fmt.Errorf("full snapshot needed before incremental can be applied")
+		}
+	}
+
 	defer func() {
 		if retErr != nil {
 			stats.Add(sinkErrors, 1)
